@@ -25,7 +25,7 @@ def sh(cmd, cwd=None, env=None, timeout=3000):
 def fresh_worktree():
     if not os.path.isdir(WT):
         sh("git -C /repo worktree add --detach %s HEAD" % WT)
-    sh("git checkout -q --detach $(git -C /repo rev-parse HEAD) && git reset -q --hard && git clean -fdq", cwd=WT)
+    sh("git reset -q --hard && git clean -fdq && git checkout -q --detach $(git -C /repo rev-parse HEAD) && git reset -q --hard && git clean -fdq", cwd=WT)
 
 
 def demo_dest(d):
